@@ -9,6 +9,8 @@ mod internal;
 #[cfg(all(test, not(kani)))]
 mod native;
 
+mod gen_premises;
+
 #[cfg(kani)]
 mod util;
 #[cfg(kani)]
